@@ -50,6 +50,16 @@ def select_fields(fields, resources=None, regex=True):
                     primary_key = [primary_key]
                 if any(k not in configuration[resource['name']] for k in primary_key):
                     del resource['schema']['primaryKey']
+                # ... and neither is a foreign key
+                foreign_keys = [
+                    fk for fk in resource['schema'].get('foreignKeys') or []
+                    if all(k in configuration[resource['name']] for k in ([fk['fields']] if isinstance(fk.get('fields'), str)
+                                                  else fk.get('fields') or []))
+                ]
+                if foreign_keys:
+                    resource['schema']['foreignKeys'] = foreign_keys
+                elif 'foreignKeys' in resource['schema']:
+                    del resource['schema']['foreignKeys']
         yield package.pkg
 
         for resource in package:
